@@ -748,6 +748,27 @@ def check_containers(case, ctx):
                 % (cname, dict(got_nodes), trace, nodes), key="source-content")
 
     same_nodes(nodes)
+
+    def same_records(recs):
+        # "the number of distinct hyperedges containing it": the hyperedges are those the
+        # container LISTS -- they must be the abstract records (as node sets)
+        listed = []
+        for rec in h.get_edges():
+            if kind == "directed":
+                listed.append(frozenset(rec[0]) | frozenset(rec[1]))
+            elif kind == "temporal":
+                listed.append(frozenset(rec[1]))
+            elif kind == "multiplex":
+                listed.append(frozenset(rec[0]))
+            else:
+                listed.append(frozenset(rec))
+        want = Counter(frozenset(ns) for ns in recs)
+        require(Counter(listed) == want,
+                lambda: "%s.get_edges() lists the node sets %r, the history %r produces %r"
+                % (cname, sorted(map(sorted, listed)), trace, sorted(map(sorted, want.elements()))),
+                key="source-content")
+
+    same_records(records.values())
     if not nodes:
         return
     R = list(records.values())
@@ -764,6 +785,7 @@ def check_containers(case, ctx):
     after = _mutate_container(h, case, nodes, records, trace, ctx)
     if after is not None:
         same_nodes(after[0])
+        same_records(after[1].values())
         _assert_container_degrees(h, kind, after[0], list(after[1].values()), trace, after[2])
     ctx.nontrivial(len(sizes) > 1 and (repeated_sets or kind == "directed"))
 
